@@ -299,6 +299,9 @@ def gen_roundtrip(seed, tier, focus):
         cfg["second"] = {"size": max(56, ch.pick("config", "second-size", [size + 1, size + seg, size - 1, 2 * size + 3, size + 3 * max(1, seg) + 1, max(56, size // 2)])),
                          "k": ch.pick("config", "second-k", [k, k, max(1, k - 1), min(n, k + 1)]),
                          "pat": ch.randint("config", "second-pat", 1, 1 << 30)}
+        # (the second file is cut into segments of the first file's real segment size: keep it to a few dozen segments)
+        effseg0 = ((max(1, min(seg, size) if size else seg) + k - 1) // k) * k
+        cfg["second"]["size"] = max(56, min(cfg["second"]["size"], 40 * effseg0 + 3))
     ops = []
     nreads = ch.randint("workload", "nreads", 1, 4) if focus in ("C04",) else ch.randint("workload", "nreads", 1, 2)
     esize = max(size, 1)
